@@ -338,6 +338,12 @@ func Buy(buyer sdk.AccAddress, tag string, specs ...BuySpec) E {
 				qty = o.Quantity
 			case "+eps":
 				qty = fmtRat(ref.Add(ref.MustRat(o.Quantity), ref.MustRat(Eps)))
+			case "=padded":
+				// the whole remaining quantity, spelled with six decimal places (trailing zeros)
+				qty = ref.MustRat(o.Quantity).FloatString(6)
+			case "=sci":
+				// the whole remaining quantity in scientific notation (value x 10 with exponent -1)
+				qty = fmtRat(ref.Mul(ref.MustRat(o.Quantity), ref.MustRat("10"))) + "e-1"
 			}
 			bo := &markettypes.MsgBuyDirect_Order{SellOrderId: id, Quantity: qty,
 				BidPrice: &sdk.Coin{Denom: den, Amount: sdk.NewIntFromBigInt(bid)}, DisableAutoRetire: sp.DAR}
